@@ -737,6 +737,11 @@ def lex_dollar(t, i, indq):
         if t[j:j + 2] == "))":
             return "TArith " + clist(["(%s)" % x for x in inner], "tok"), j + 2
         return None
+    if nxt == "(":
+        inner, j = lex_toks(t, i + 2, ")")
+        if t[j:j + 1] == ")":
+            return "TSub " + clist(["(%s)" % x for x in inner], "tok"), j + 1
+        return None
     m = IDENT.match(t, i + 1)
     return "TVar " + cstr(m.group(0)), m.end()
 
@@ -779,7 +784,10 @@ def lex_toks(t, i, closer):
             return out, i
         if closer is not None and ch == closer:
             return out, i
-        if ch == "\\" and i + 1 < len(t):
+        if closer is None and t[i:i + 3] == "<<<":
+            out.append("THs")
+            i += 3
+        elif ch == "\\" and i + 1 < len(t):
             out.append("TEsc %d%%N" % ord(t[i + 1]))
             i += 2
         elif ch == "'":
